@@ -318,16 +318,19 @@ class Interp:
             r = self.ev(e.comparators[0], w)
             return {ast.Eq: l == r, ast.NotEq: l != r, ast.Lt: l < r, ast.LtE: l <= r, ast.Gt: l > r, ast.GtE: l >= r}[type(e.ops[0])]
         if isinstance(e, ast.BoolOp):
-            # Python semantics: the selected operand; all operands are evaluated at the context width
+            # Python semantics: the selected operand.  The Verilog form is (x) ? (y) : (x): x is evaluated once as a
+            # condition (self-determined width) and once as a value (context width), so it must fit both
             if isinstance(e.op, ast.And):
                 v = True
                 for x in e.values:
+                    self.ev(x, self.sw(x))
                     v = self.ev(x, W)
                     if not v:
                         return v
                 return v
             v = False
             for x in e.values:
+                self.ev(x, self.sw(x))
                 v = self.ev(x, W)
                 if v:
                     return v
